@@ -36,16 +36,8 @@ META = {
 
 # Discrepancies between ripgrep and the property that are reported to the coordinator instead of
 # failing the check (see the brief); everything else is a VIOLATION.
-PENDING_FINDINGS = [
-    {"match": {"clause": "set_vs_members", "path_ends_with_dot": True, "direction": "set_misses_member",
-               "strategy": ["basename", "ext", "reqext"]},
-     "what": "GlobSet misses a member glob (basename-literal / extension / required-extension strategy) on every path "
-             "whose last byte is '.', because pathutil::file_name returns None for such paths, although the member's own "
-             "matcher accepts it (glob 'a.' or '*.' vs path 'a.')"},
-    {"match": {"clause": "documented_meaning", "mechanism": "unopened_alternates_accepted"},
-     "what": "a '}' without a matching '{' is accepted and ignored by GlobBuilder::build (glob 'a}' matches 'a') although "
-             "ErrorKind::UnopenedAlternates is documented to occur for it; the error can never be produced"},
-]
+# findings are recorded in /verif/known_findings.jsonl (status known / fixed); nothing is pending here
+PENDING_FINDINGS = []
 
 BATCH = 8
 P = 32749
